@@ -229,6 +229,8 @@ func c06(c *Ctx) {
 	R.Min("R06.3", "statement obligations reachable from user.apply", n, 40)
 
 	c06idem(c, apply, reach)
+	R.Explain("R06.6", "flag case discipline (same rule as R03.4): flags restated by a connector update are compared case-insensitively, so the echo of a flag stored in another letter case changes nothing.")
+	c.flagCase("R06.6")
 	c06recovery(c, apply)
 }
 
